@@ -421,6 +421,7 @@ def eval_comprehension(it, node, frame, kind):
     sub.first_arg = frame.first_arg
     out_list = []
     out_dict = {}
+    sym_gens = []
 
     def emit():
         if kind == "dict":
@@ -439,6 +440,23 @@ def eval_comprehension(it, node, frame, kind):
         itv = it.eval(g.iter, sub if gi > 0 else frame)
         if isinstance(itv, SymList) and len(gens) == 1 and not g.ifs and kind == "list":
             raise _LazyNeeded(itv)
+        if isinstance(itv, MapRef):
+            itv = DictView(itv, "keys")
+        if isinstance(itv, DictView) and isinstance(itv.mapref, MapRef) and kind == "list":
+            # element-wise law: evaluate the rest once for an arbitrary key of this dict
+            m = itv.mapref
+            if m.spec.arity != 1:
+                raise Unsupported("comprehension over tuple-keyed dict")
+            kk = it.ctx.fresh("int", "compkey")
+            it.ctx.add_index_term(m.spec.role, kk.term)
+            sym_gens.append((kk.term, z3.Select(m.dom_arr(), kk.term)))
+            it.ctx.add_fact(z3.Select(m.dom_arr(), kk.term))  # local to this evaluation: the key is in the dict
+            val = kk if itv.mode == "keys" else (m.read(kk) if itv.mode == "values" else (kk, m.read(kk)))
+            it.assign(g.target, val, sub)
+            for cond in g.ifs:
+                raise Unsupported("filter in a comprehension over a symbolic dict")
+            rec(gi + 1)
+            return
         if isinstance(itv, (DictView, MapRef, SeqVal, SeqRef, LazyMap)):
             raise Unsupported("comprehension over a symbolic container")
         if isinstance(itv, dict):
@@ -459,6 +477,10 @@ def eval_comprehension(it, node, frame, kind):
         rec(0)
     except _LazyNeeded as ln:
         return _lazy_list_comp(it, node, frame, ln.src)
+    if sym_gens:
+        from .values import CompList
+
+        return CompList([k for k, _ in sym_gens], z3.And([g_ for _, g_ in sym_gens]), out_list)
     if kind == "dict":
         return out_dict
     if kind == "set":
